@@ -189,7 +189,13 @@ def enc_hextile(fmt, rows, rng, stats):
             choice = rng.random()
             if choice < 0.2 or (len(cols) > 8 and choice < 0.6):
                 out += b"\x01" + enc_raw(fmt, tile)
-                bg = fg = None          # strict reading: re-specify after a raw tile
+                # RFC 6143 7.7.4: an unset Background/ForegroundSpecified bit means "the same as the last tile"; a raw tile
+                # specifies neither, so the colours survive it (the client carries them): half of the streams rely on that,
+                # the other half re-specify after a raw tile as libvncserver does
+                if rng.random() < 0.5:
+                    bg = fg = None
+                else:
+                    stats["hextile-carry-across-raw"] += 1
                 stats["hextile-raw"] += 1
                 continue
             tbg = cols.most_common(1)[0][0]
@@ -235,7 +241,8 @@ def enc_hextile(fmt, rows, rng, stats):
             if len(subs) > 255:
                 # too many for one tile: fall back to raw (what a real encoder does)
                 out += b"\x01" + enc_raw(fmt, tile)
-                bg = fg = None
+                if rng.random() < 0.5:
+                    bg = fg = None
                 stats["hextile-raw"] += 1
                 continue
             sub |= 8 | 16
